@@ -245,6 +245,54 @@ fn sub_score_cap() -> SubCheck {
     )
 }
 
+/// Where the two helpers meet: the block hash scorer applies the cap to the raw score at an effective block size
+/// log 0..=31 (31 = block hash 2 of the largest block size, documented as valid there).
+fn sub_capped_scores() -> SubCheck {
+    #![allow(deprecated)]
+    use ssdeep::internal_comparison::{BlockHashPositionArray, BlockHashPositionArrayImpl};
+    const SHIFTS: u64 = 6;
+    let total: u64 = 32 * 58 * 58 * SHIFTS;
+    fn strings(l1: u64, l2: u64, k: u64) -> (Vec<u8>, Vec<u8>) {
+        // run-free sequence; b is a shifted window of it (shares 7-grams with a), with its tail symbols replaced
+        let s = |i: u64| ((i * 5) % 64) as u8;
+        let a: Vec<u8> = (0..l1).map(s).collect();
+        let mut b: Vec<u8> = (k..k + l2).map(s).collect();
+        let keep = 7 + (k as usize * 9) % 40;
+        for (j, c) in b.iter_mut().enumerate().skip(keep) {
+            *c = ((j as u64 * 11 + 3 + k) % 64) as u8;
+        }
+        (a, oracle::fmt::collapse(&b))
+    }
+    enumerated(
+        "capped_scores_all_levels",
+        "all (n, l1, l2, shift) in 0..=31 x 7..=64 x 7..=64 x 0..6: score_strings(n) of a position array holding a run-free string of length l1 against a shifted, partly rewritten window of length <= l2 equals min(raw score, 2^n*min(l1,l2)) below the capping border and the raw score from it upward (reference: ssdeep's score_strings); non-trivial = pairs with a common 7-gram; distinct by construction",
+        total,
+        true,
+        |i| {
+            let (a, b) = strings(7 + (i / (58 * SHIFTS)) % 58, 7 + (i / SHIFTS) % 58, i % SHIFTS);
+            json!({"n": i / (58 * 58 * SHIFTS), "a": a, "b": b})
+        },
+        |lo, hi, st: &mut Stats| {
+            for i in lo..hi {
+                let n = (i / (58 * 58 * SHIFTS)) as u8;
+                let (a, b) = strings(7 + (i / (58 * SHIFTS)) % 58, 7 + (i / SHIFTS) % 58, i % SHIFTS);
+                let mut pa = BlockHashPositionArray::new();
+                must("init_from", || pa.init_from(&a)).map_err(|m| (i, m))?;
+                let got = must("score_strings", || pa.score_strings(&b, n)).map_err(|m| (i, m))?;
+                let exp = oracle::cmp::score_strings(&a, &b, 3u64 << n);
+                if got != exp {
+                    return Err((i, format!("score_strings(a={:?}, b={:?}, log block size {}) = {} expected {}", a, b, n, got, exp)));
+                }
+                st.count(1);
+                if oracle::cmp::has_common_7gram(&a, &b) {
+                    st.nontrivial_distinct(1);
+                }
+            }
+            Ok(())
+        },
+    )
+}
+
 pub fn subchecks(_tier: Tier) -> Vec<SubCheck> {
-    vec![sub_is_valid(), sub_logs(), sub_relations(), sub_raw_score(), sub_score_cap()]
+    vec![sub_is_valid(), sub_logs(), sub_relations(), sub_raw_score(), sub_score_cap(), sub_capped_scores()]
 }
